@@ -48,13 +48,16 @@ def srcOf : List Str → Str × Src
   | [name] => (name, .stmts [])
   | [] => ([], .stmts [])
 
-def showState (st : ProjState) : List Str :=
+def showNames (ns : List NameKey) : Str := commaJoin (ns.map (fun k => k.1 ++ '/' :: k.2))
+
+def showState (st : ProjState) (names : List NameKey) : List Str :=
   ["ok".toList,
    commaJoin (st.reg.files.map (·.1)),
    commaJoin st.reg.modules, commaJoin st.reg.submodules, commaJoin st.reg.procedures,
    commaJoin st.reg.programs, commaJoin st.reg.blockdata,
    commaJoin (st.warned.map (fun w => w.1 ++ '=' :: errName w.2)),
-   match st.aborted with | some (n, e) => n ++ '=' :: errName e | none => []]
+   match st.aborted with | some (n, e) => n ++ '=' :: errName e | none => [],
+   'N' :: '=' :: showNames names]
 
 end C20D
 
@@ -75,7 +78,7 @@ def dispatchC20 : List Str → Option (List Str)
       match args with
       | d :: f :: r :: rest =>
         let files := (splitBar rest []).filter (fun l => !l.isEmpty)
-        some (showState (loadProject (cfgOf d f r) (files.map srcOf)))
+        some (showState (loadProject (cfgOf d f r) (files.map srcOf)) (projectNames (cfgOf d f r) (files.map srcOf)))
       | _ => some ["bad-request".toList]
     else none
   | [] => none
